@@ -99,3 +99,59 @@ theorem C04_uni_wallet_keys (K : Kern) (pool : Pool) (minError : Rat) (s : State
   ((wrel_stepRel K pool).runOps minError ops s).1 tok h
 
 end Demeter
+
+/-! ### what was wrong, and non-vacuity -/
+namespace Demeter.Uni
+
+/-- a stand-in kernel with constant answers (the statements hold for every kernel) -/
+def toyKern : Kern :=
+  { cx := NumCtx.exact
+    priceToSqrt := fun _ _ => .ok 1
+    sqrtToPrice := fun _ _ => .ok 1
+    tickToPrice := fun _ _ => .ok 1
+    newPos := fun _ _ _ _ _ _ => .ok (5, 5, 7)
+    amounts := fun _ _ _ _ _ _ => .ok (0, 0)
+    tickToSqrt := fun _ => .ok 1 }
+
+/-- the exception of an outcome, if any -/
+def errOf {α : Type} : Except Err α → Option Err
+  | .error e => some e
+  | .ok _ => none
+
+theorem errOf_eq {α : Type} {r : Except Err α} {e : Err} (h : errOf r = some e) : r = .error e := by
+  cases r with
+  | error e' => simp only [errOf, Option.some.injEq] at h; rw [h]
+  | ok v => simp [errOf] at h
+
+def toyPool : Pool :=
+  { tok0 := "a", tok1 := "b", d0 := 6, d1 := 18, feeRate := 3 / 1000, spacing := 10, q0 := true, decFac := 1 }
+
+/-- 10 of token0, 1 of token1, no positions, open market -/
+def toyState : State :=
+  { positions := [], lastTick := none, row := none, ts := none, isOpen := true, hasUpdate := false,
+    wallet := [("a", 10), ("b", 1)], allowNeg := false, actions := [] }
+
+end Demeter.Uni
+
+namespace Demeter
+open Demeter.Uni
+
+/-- Before the repair (`addRawOld`: positions first, then the debits): a request that needs 5 of each token with
+    only 1 of token1 in the wallet is rejected, yet leaves a position with liquidity 7 and token0 debited. -/
+theorem C04_uni_add_fails_before_fix :
+    errOf (addRawOld toyKern toyPool toyState 5 5 0 10 (some 1)).1 = some .assertion ∧
+    (addRawOld toyKern toyPool toyState 5 5 0 10 (some 1)).2.positions.length = 1 ∧
+    AList.get? (addRawOld toyKern toyPool toyState 5 5 0 10 (some 1)).2.wallet "a" = some 5 := by
+  decide +kernel
+
+/-- the same request against the repaired order: rejected, and nothing has changed -/
+example : errOf (addRaw toyKern toyPool toyState 5 5 0 10 (some 1)).1 = some .assertion ∧
+    (addRaw toyKern toyPool toyState 5 5 0 10 (some 1)).2 = toyState := by decide +kernel
+
+/-- hypotheses of `C04_uni_reject_noop` are satisfiable with a rejected and with an accepted call -/
+example : PosImpliesWallet toyPool toyState ∧ (Op.addRaw 5 5 0 10 (some 1)).atomic = true ∧
+    (step toyKern toyPool 0 toyState (.addRaw 5 5 0 10 (some 1))).1 = .error .assertion ∧
+    errOf (step toyKern toyPool 0 { toyState with wallet := [("a", 10), ("b", 10)] } (.addRaw 5 5 0 10 (some 1))).1 = none := by
+  refine ⟨fun h => absurd rfl h, rfl, errOf_eq (by decide +kernel), by decide +kernel⟩
+
+end Demeter
